@@ -126,3 +126,19 @@ class RaisesReduce:
 
     def __reduce_ex__(self, protocol):
         raise RuntimeError("cannot be reduced")
+
+
+class NestedDump:
+    """an object whose __getstate__ itself dumps something (a user class that snapshots part of its state)"""
+
+    def __init__(self, v=1):
+        self.v = v
+
+    def __getstate__(self):
+        from skops.io import dumps
+
+        dumps([b"inner-1", b"inner-2", bytearray(b"inner-3")])
+        return {"v": self.v}
+
+    def __setstate__(self, state):
+        self.v = state["v"]
